@@ -4,21 +4,26 @@ use arbitrary::Unstructured;
 use libfuzzer_sys::fuzz_target;
 use vcore::Case;
 
+// ops: 0 add 1 sub 2 mul 3 div 4 rem 5 div_euclid 6 rem_euclid 7 mul_int 8 div_int 9 rem_int 10 div_euclid_int
+// 11 rem_euclid_int 12 neg 13 abs
+const C01_OPS: [u16; 2] = [2, 3];
+const C02_OPS: [u16; 8] = [0, 1, 2, 3, 7, 8, 12, 13];
+const C07_OPS: [u16; 8] = [4, 5, 6, 9, 10, 11, 5, 10];
+
 fuzz_target!(|data: &[u8]| {
     let mut u = Unstructured::new(data);
     let lay = u.int_in_range(0..=505u16).unwrap_or(0);
-    // ops 0..=11: add sub mul div rem div_euclid rem_euclid mul_int div_int rem_int div_euclid_int rem_euclid_int
-    let op = u.int_in_range(0..=11u16).unwrap_or(2);
+    let sel = u.int_in_range(0..=255u16).unwrap_or(0) as usize;
     let a: u128 = u.arbitrary().unwrap_or(0);
     let b: u128 = u.arbitrary().unwrap_or(1);
-    let c = Case { op, lay, a, b, ..Case::default() };
-    let prop = match op {
-        0 | 1 | 7 | 8 => "C02",
-        2 | 3 => {
-            common::judge(&bin_arith::Arith, "C01", &c);
-            "C02"
+    for (prop, ops) in [("C01", &C01_OPS[..]), ("C02", &C02_OPS[..]), ("C07", &C07_OPS[..])] {
+        if common::wanted(prop) {
+            let mut op = ops[sel % ops.len()];
+            if op == 13 && lay >= 253 {
+                op = 12; // abs exists for signed types only
+            }
+            let c = Case { op, lay, a, b, ..Case::default() };
+            common::judge(&bin_arith::Arith, prop, &c);
         }
-        _ => "C07",
-    };
-    common::judge(&bin_arith::Arith, prop, &c);
+    }
 });
